@@ -23,7 +23,7 @@ ASSUMPTIONS = [
     "exact comparison uses == on every entry (signed zeros of structural zeros are not distinguished); weights |w| <= 8 and data magnitudes within 2^+-40, so no overflow/underflow occurs",
 ]
 TIERS = {"quick": {"worlds": 2500, "wall": 150, "limit": 60.0}, "thorough": {"worlds": 60000, "wall": 1700, "limit": 120.0}}
-GATES = ("nontrivial", "points.run_iterates", "points.probes", "scaling.Custom", "scaling.Nominal", "scaling.GradJac", "scaling.KKT", "rows.offset", "rows.slack")
+GATES = ("nontrivial", "worlds.int_dtype", "points.run_iterates", "points.probes", "scaling.Custom", "scaling.Nominal", "scaling.GradJac", "scaling.KKT", "rows.offset", "rows.slack")
 
 
 def generate(rng, seed, index, tier):
@@ -35,6 +35,14 @@ def generate(rng, seed, index, tier):
             spec[key] = np.ldexp(np.asarray(spec[key], float), k)
         spec["cl"] = np.ldexp(np.asarray(spec["cl"], float), k)
         spec["cu"] = np.ldexp(np.asarray(spec["cu"], float), k)
+    if rng.random() < 0.15:
+        # integer-valued constant Jacobian / Hessian returned with an integer dtype
+        spec["A"] = np.round(np.asarray(spec["A"], float) * 2)
+        spec["B"] = np.zeros_like(np.asarray(spec["B"], float))
+        spec["Q"] = np.round(np.asarray(spec["Q"], float))
+        spec["a"] = np.zeros(spec["n"])
+        spec["dom"] = None
+        spec["int_dtype"] = True
     spec["policy"] = str(rng.choice(["fresh", "cached", "memo"]))
     y0 = np.round(rng.normal(size=spec["m"]), 3)
     kw = {}
@@ -99,6 +107,8 @@ def case(world):
     tp = tr.trans_problem
     st = world["params"].get("scaling_type", "NoScaling")
     bump("scaling." + st)
+    if world["problem"].get("int_dtype"):
+        bump("worlds.int_dtype")
     if rt.ns:
         bump("rows.slack")
     if np.any(rt.off != 0):
